@@ -1,4 +1,6 @@
 import DtsVerif.AuditCmd
+import DtsVerif.Props.C01
+import DtsVerif.Props.C02
 import DtsVerif.Props.C14
 import DtsVerif.Props.C15
 import DtsVerif.Props.C16
